@@ -272,11 +272,14 @@ theorem c04_cargo_skip_keys (content : Text) (tbl : Node) (h : cargoSkipInline c
 
 theorem c04_cargo_skip_list : Generated.skipKeys = ["path", "workspace", "registry"] := rfl
 
-/-- **only dependency tables**: every crate reported comes from a `pair` of a top-level `table` whose header
-    text is one of the dependency tables -/
+/-- **only dependency tables**: every crate reported comes from a `pair` of a top-level `table` whose header text is
+    one of the dependency tables, or from a top-level `table` `[<dependency table>.<name>]` read like an inline table
+    (F-C04-8, repaired) -/
 theorem c04_cargo_only_tables (content : Text) (tree : Node) (p : PkgInfo) (h : p ∈ cargoToml content tree) :
-    ∃ table name pair, table ∈ tree.children ∧ table.kind = "table" ∧ tableName content table = some name ∧
-      strIn Generated.dependencyTables (cargoSection name) = true ∧ pair ∈ table.children ∧ pair.kind = "pair" ∧ cargoPair content pair = some p := by
+    ∃ table name, table ∈ tree.children ∧ table.kind = "table" ∧ tableName content table = some name ∧
+      ((cargoIsDepTable name = true ∧ ∃ pair, pair ∈ table.children ∧ pair.kind = "pair" ∧ cargoPair content pair = some p) ∨
+       (cargoIsDepTable name = false ∧ ∃ parent dep, rsplitOnceChar '.' name = some (parent, dep) ∧
+          cargoIsDepTable parent = true ∧ p ∈ cargoSubtable content dep table)) := by
   unfold cargoToml at h
   simp only [List.mem_flatMap, List.mem_filter] at h
   obtain ⟨table, ⟨ht, hk⟩, hp⟩ := h
@@ -285,12 +288,42 @@ theorem c04_cargo_only_tables (content : Text) (tree : Node) (p : PkgInfo) (h : 
   | none => simp [hn] at hp
   | some name =>
     simp only [hn] at hp
-    by_cases hin : strIn Generated.dependencyTables (cargoSection name) = true
-    · simp only [hin, Bool.not_true, Bool.false_eq_true, if_false, List.mem_filterMap, List.mem_filter] at hp
+    refine ⟨table, name, ht, by simpa using hk, hn, ?_⟩
+    cases hin : cargoIsDepTable name with
+    | true =>
+      simp only [hin, if_true, List.mem_filterMap, List.mem_filter] at hp
       obtain ⟨pair, ⟨hpm, hpk⟩, hpp⟩ := hp
-      exact ⟨table, name, pair, ht, by simpa using hk, hn, hin, hpm, by simpa using hpk, hpp⟩
-    · have : strIn Generated.dependencyTables (cargoSection name) = false := by simpa using hin
-      simp [this] at hp
+      exact Or.inl ⟨rfl, pair, hpm, by simpa using hpk, hpp⟩
+    | false =>
+      simp only [hin, Bool.false_eq_true, if_false] at hp
+      cases hr : rsplitOnceChar '.' name with
+      | none => simp [hr] at hp
+      | some pd =>
+        obtain ⟨parent, dep⟩ := pd
+        simp only [hr] at hp
+        cases hpar : cargoIsDepTable parent with
+        | false => simp [hpar] at hp
+        | true =>
+          simp only [hpar, if_true] at hp
+          exact Or.inr ⟨rfl, parent, dep, rfl, hpar, hp⟩
+
+/-- a sub-table yields at most one crate, named by its `package` key or else by the last component of the header, with
+    the version of its `version` key; none when it has a skip key (path / workspace / registry) -/
+theorem c04_cargo_subtable (content : Text) (dep : Text) (table : Node) (p : PkgInfo) (h : p ∈ cargoSubtable content dep table) :
+    cargoSkipInline content table = false ∧
+    p.name = (match cargoInlinePackage content table with | some real => real | none => dep) ∧
+    ∃ vi, cargoInlineVersion content table = some vi ∧ p.version = vi.1 := by
+  unfold cargoSubtable at h
+  cases hv : cargoInlineVersion content table with
+  | none => simp [hv] at h
+  | some vi =>
+    obtain ⟨v, s, e, l, c⟩ := vi
+    simp only [hv, List.mem_singleton] at h
+    subst h
+    refine ⟨?_, rfl, ⟨(v, s, e, l, c), rfl, rfl⟩⟩
+    cases hs : cargoSkipInline content table with
+    | false => rfl
+    | true => rw [c04_cargo_skip_keys content table hs] at hv; cases hv
 
 theorem c04_cargo_tables : Generated.dependencyTables = ["dependencies", "dev-dependencies", "build-dependencies", "workspace.dependencies"] := rfl
 
@@ -320,9 +353,15 @@ theorem c04_cargo_renamed_example :
     (cargoPair content pair).map (fun p => (p.name, p.version, p.startOffset, p.endOffset)) =
       some ("b".toList, "1".toList, 32, 33) := by decide
 
-/-- **deviation (F-C04-8)**: `[dependencies.<name>]` sub-tables are not dependency tables -/
-theorem c04_deviation_cargo_subtables :
-    strIn Generated.dependencyTables (cargoSection "dependencies.serde".toList) = false := by decide
+/-- `[dependencies.<name>]` headers (F-C04-8, repaired): not a dependency table themselves, their parent is -/
+theorem c04_cargo_subtable_headers :
+    cargoIsDepTable "dependencies.serde".toList = false ∧
+    rsplitOnceChar '.' "dependencies.serde".toList = some ("dependencies".toList, "serde".toList) ∧
+    rsplitOnceChar '.' "target.'cfg(unix)'.dev-dependencies.libc".toList = some ("target.'cfg(unix)'.dev-dependencies".toList, "libc".toList) ∧
+    cargoIsDepTable "target.'cfg(unix)'.dev-dependencies".toList = true ∧
+    cargoIsDepTable "package.metadata.dependencies".toList = false ∧
+    rsplitOnceChar '.' "dependencies".toList = none := by
+  refine ⟨?_, ?_, ?_, ?_, ?_, ?_⟩ <;> decide
 
 /-! ### go.mod -/
 
